@@ -48,6 +48,7 @@ LINES = [
     ("docindent", "       !! d{n}"),
     ("blank", ""),
     ("short", "   "),
+    ("blank8", "        "),
     ("long", PAD + "u{n} = {n}|72|SEQ{n}"),
     ("long73", PAD + "u{n} = {n}|72|7"),
     ("longbang", PAD + "u{n} = {n}|72|!SEQ{n}"),
@@ -59,6 +60,9 @@ LINES = [
     ("inlined", PAD + "x{n} = {n} !! d{n}"),
     ("openc", PAD + "y{n} = h({n}, ! c{n}"),
     ("opend", PAD + "y{n} = h({n}, !! d{n}"),
+    # a continued line holding a literal with an unpaired quote of the other kind, then a comment
+    ("openlitq", PAD + "y{n} = k(\"it's\", ! c{n}"),
+    ("openlitqd", PAD + "y{n} = k('say \"hi', !! d{n}"),
     ("doc", "!! d{n}"),
     # comment and documentation lines reaching beyond column 72 (the column limit applies to statements only)
     ("doclong", "!! d{n} words|72| tail{n}"),
